@@ -545,7 +545,10 @@ impl Duration {
         Self::from_total_nanoseconds(if duration.total_nanoseconds() == 0 {
             0
         } else {
-            self.total_nanoseconds() - self.total_nanoseconds() % duration.total_nanoseconds()
+            self.total_nanoseconds()
+                - self
+                    .total_nanoseconds()
+                    .rem_euclid(duration.total_nanoseconds())
         })
     }
 
